@@ -60,7 +60,8 @@ Definition run_gglwe_compressed (ps : list Z) (vs : list (list Z)) : option (lis
       let std := map (fun q =>
            let rc := fst (fst q) in let c := snd (fst q) in let ex := snd q in
            if ex =? 2 then 2 else 1) (combine (combine slots cells) (v vs 6)) in
-      Some [seeds; concat (map (of_cols n size) cells); std ++ [bz (eqlz seeds drawn); 1; 1; 1]]
+      (* last flag: the LWE-related wrapper layouts accept the same bytes and decompress alike (2 = shape does not admit them) *)
+      Some [seeds; concat (map (of_cols n size) cells); std ++ [bz (eqlz seeds drawn); 1; 1; 1; last (v vs 6) 1]]
   end.
 
 Definition run_ggsw_compressed (ps : list Z) (vs : list (list Z)) : option (list (list Z)) :=
@@ -97,10 +98,26 @@ Definition run_glwe_compressed (ps : list Z) (vs : list (list Z)) : option (list
 
 (* the last input vector of every record is the list of flags the model predicts (all comparisons succeed: 1; not
    applicable: 2); it is produced by the generator from the shape alone, never from the implementation's outputs *)
+(* 19004 LWECompressed -> decompress_lwe: vs = [pt; s; ua (size*(n+1) u64 of Source::new(stored seed)); e (1); expected flags]
+   out = [decompressed ciphertext (limb-major, word 0 of each limb = body); [equals the standard encryption; serialisation round trip]].
+   As the code is: decompress_lwe asserts res.lwe_layout() == other.lwe_layout(), and an LWECompressed reports the ring degree of its
+   one-coefficient body vector, 1: the call panics for every LWE dimension other than 1 (no words, flag 0) *)
+Definition run_lwe_compressed (ps : list Z) (vs : list (list Z)) : option (list (list Z)) :=
+  let n := np ps 1 in let b := p ps 2 in let size := np ps 3 in let nk := p ps 8 in
+  let pt := v vs 0 in let s := v vs 1 in let us := stream (v vs 2) in let e := nthZ (v vs 3) 0 in
+  let a := lwe_mask b n size us in
+  match lwe_enc_body b size nk pt s a e with
+  | None => None
+  | Some body =>
+      if Nat.eqb n 1 then Some [concat (map (fun j => nthZ body j :: nth j a []) (seq 0 size)); [1; 1]]
+      else Some [[]; [0; 1]]
+  end.
+
 Definition run_c19 (code : Z) (ps : list Z) (vs : list (list Z)) : option (list (list Z)) :=
   match code with
   | 19001 => run_glwe_compressed ps vs
   | 19002 => run_gglwe_compressed ps vs
   | 19003 => run_ggsw_compressed ps vs
+  | 19004 => run_lwe_compressed ps vs
   | _ => None
   end.
